@@ -285,6 +285,19 @@ func (ic *incorp) callDeps(c *ssa.Call) depSet {
 		out[ic.k.Key(c)] = true
 		return out
 	}
+	if b, ok := c.Call.Value.(*ssa.Builtin); ok {
+		switch b.Name() {
+		case "append":
+			for _, a := range c.Call.Args {
+				out.add(ic.deps(a))
+			}
+			return out
+		case "len":
+			return wrapTag("len", ic.deps(c.Call.Args[0]))
+		case "cap":
+			return out
+		}
+	}
 	cal := c.Call.StaticCallee()
 	if cal == nil {
 		out[ic.k.Key(c)] = true
@@ -304,7 +317,8 @@ func (ic *incorp) callDeps(c *ssa.Call) depSet {
 		return wrapTag("keys", ic.deps(c.Call.Args[0]))
 	case strings.HasPrefix(name, "maps.Values"):
 		return wrapTag("lookup", ic.deps(c.Call.Args[0]))
-	case name == "("+modPath+".ID).ToBytes", name == "("+modPath+".View).ToBytes", name == "encoding/binary.littleEndian.AppendUint64":
+	case name == "("+modPath+".ID).ToBytes", name == "("+modPath+".View).ToBytes",
+		strings.Contains(name, "encoding/binary.") && strings.HasPrefix(cal.Name(), "Append"):
 		for _, a := range c.Call.Args {
 			out.add(ic.deps(a))
 		}
